@@ -55,6 +55,45 @@ def expectation(edges, root, phi, u):
     return total
 
 
+def expectation_multi(edges, root, p, u, fixed=None):
+    """the same expectation with a separate occupation probability p[i] for edge number i (multilinear in every p[i]);
+    fixed: {edge index: 0/1} pins edges to unoccupied / occupied"""
+    edges = list(edges)
+    m = len(edges)
+    fixed = fixed or {}
+    free = [i for i in range(m) if i not in fixed]
+    total = 0
+    for bits in itertools.product((0, 1), repeat=len(free)):
+        occ = dict(fixed)
+        occ.update(zip(free, bits))
+        w = 1
+        for i, b in zip(free, bits):
+            w = w * (p[i] if b else (1 - p[i]))
+        comp = _component(None, [edges[i] for i in range(m) if occ[i]], root)
+        for v in sorted(comp):
+            if v != root:
+                w = w * u[v]
+        total = total + w
+    return total
+
+
+def edge_monotonicity_pairs(edges, root):
+    """distinct (component without edge e, component with edge e) pairs over all edges e and all 0/1 settings of the other
+    edges, for which adding e really changes the root's component"""
+    edges = list(edges)
+    m = len(edges)
+    pairs = set()
+    for e in range(m):
+        rest = [i for i in range(m) if i != e]
+        for bits in itertools.product((0, 1), repeat=m - 1):
+            occ = [edges[i] for i, b in zip(rest, bits) if b]
+            c0 = _component(None, occ, root)
+            c1 = _component(None, occ + [edges[e]], root)
+            if c0 != c1:
+                pairs.add((c0, c1))
+    return sorted(pairs, key=lambda cc: (sorted(cc[0]), sorted(cc[1])))
+
+
 def connected_prob_coeffs(n):
     """conn[k] (k=1..n) as polynomials in q=(1-phi) represented as {power of q: int coeff}:
     conn_n = 1 - sum_{k<n} C(n-1,k-1) conn_k q^{k(n-k)}   (no use of Q(n,k))"""
